@@ -548,10 +548,17 @@ Proof.
     rewrite C in C'. discriminate C'.
 Qed.
 
+Lemma shutdown_inv : forall st, Inv st -> Inv (shutdown st).
+Proof.
+  intros st I. unfold shutdown. pose proof (flush_inv st I) as F.
+  destruct (s_halt (flush st)); [exact F|].
+  apply (Inv_transfer (flush st)); cbn; auto; apply F.
+Qed.
+
 Lemma step_inv : forall cfg st ev, c_variant cfg = Repaired -> Inv st -> Inv (step cfg st ev).
 Proof.
   intros cfg st ev V I. unfold step. destruct (s_halt st); [exact I|].
-  destruct ev; [apply handle_write_inv; auto|apply flush_inv; auto].
+  destruct ev; [apply handle_write_inv; auto|apply flush_inv; auto|apply shutdown_inv; auto].
 Qed.
 
 Lemma max_seq_bound : forall st p, In p st -> fst p <= max_seq st.
@@ -849,25 +856,35 @@ Lemma fold_ack_q : forall ok l st,
   s_panic (fold_left (fun a w => ack a w ok) l st) = s_panic st.
 Proof. intros ok l; induction l as [|a l IH]; intros st; cbn; [reflexivity|]. rewrite IH. reflexivity. Qed.
 
+Lemma flush_q : forall st, Quiet st -> Quiet (flush st).
+Proof.
+  intros st [P L]. unfold flush. destruct (s_since st =? 0); [split; auto|].
+  unfold resolve_all.
+  destruct (s_cur st) as [wr|].
+  - unfold do_io. destruct (s_io st) as [|o l]; [split; auto|].
+    destruct o; split; cbn; try rewrite fold_ack_q; cbn; auto.
+  - split; cbn; try rewrite fold_ack_q; auto.
+Qed.
+
+Lemma shutdown_q : forall st, Quiet st -> Quiet (shutdown st).
+Proof.
+  intros st Q. unfold shutdown. pose proof (flush_q st Q) as F.
+  destruct (s_halt (flush st)); [exact F|]. exact F.
+Qed.
+
 Lemma step_q : forall cfg st ev, Quiet st -> Quiet (step cfg st ev).
 Proof.
   intros cfg st ev [P L]. unfold step. destruct (s_halt st); [split; auto|].
-  destruct ev as [w size|].
-  - unfold handle_write.
-    set (st0 := if c_max_entries cfg <=? s_since st then set_over st else st).
-    assert (Q0 : s_panic st0 = false /\ s_pending st0 = s_pending st /\ s_since st0 = s_since st).
-    { unfold st0. destruct (c_max_entries cfg <=? s_since st); cbn; auto. }
-    destruct Q0 as [P0 [L0 S0]].
-    destruct (rot_append cfg st0 w size) as [st1 r] eqn:E.
-    destruct (rot_append_q _ _ _ _ _ _ E) as [A [B C]]. destruct (C P0) as [P1 NP].
-    destruct r; try (split; cbn; congruence).
-    split; cbn; [exact P1|]. rewrite app_length. cbn. rewrite A, B, L0, S0. lia.
-  - unfold flush. destruct (s_since st =? 0); [split; auto|].
-    unfold resolve_all.
-    destruct (s_cur st) as [wr|].
-    + unfold do_io. destruct (s_io st) as [|o l]; [split; auto|].
-      destruct o; split; cbn; try rewrite fold_ack_q; cbn; auto.
-    + split; cbn; try rewrite fold_ack_q; auto.
+  destruct ev as [w size| |]; [|apply flush_q; split; auto|apply shutdown_q; split; auto].
+  unfold handle_write.
+  set (st0 := if c_max_entries cfg <=? s_since st then set_over st else st).
+  assert (Q0 : s_panic st0 = false /\ s_pending st0 = s_pending st /\ s_since st0 = s_since st).
+  { unfold st0. destruct (c_max_entries cfg <=? s_since st); cbn; auto. }
+  destruct Q0 as [P0 [L0 S0]].
+  destruct (rot_append cfg st0 w size) as [st1 r] eqn:E.
+  destruct (rot_append_q _ _ _ _ _ _ E) as [A [B C]]. destruct (C P0) as [P1 NP].
+  destruct r; try (split; cbn; congruence).
+  split; cbn; [exact P1|]. rewrite app_length. cbn. rewrite A, B, L0, S0. lia.
 Qed.
 
 Lemma fold_step_q : forall cfg sched st, Quiet st -> Quiet (fold_left (step cfg) sched st).
